@@ -44,7 +44,7 @@ ASSUMPTIONS = [
     "relative input/output paths are generated only in script mode, where CMake's cwd and the child's cwd coincide",
     "the find_package(cminx) packaging path (cminx-config.cmake.in + PyInstaller) is not covered",
 ]
-PROBES = ["two_calls_one_process", "extra_repeated_token", "stub_ok", "stub_exit_nonzero", "stub_killed", "stub_stderr_exit0", "stub_missing", "stub_noexec", "real_peer",
+PROBES = ["same_call_in_a_second_process", "two_calls_one_process", "extra_repeated_token", "stub_ok", "stub_exit_nonzero", "stub_killed", "stub_stderr_exit0", "stub_missing", "stub_noexec", "real_peer",
           "real_peer_failing_input", "driver_project", "driver_script", "input_dir", "input_file", "input_missing",
           "extra_with_space", "extra_with_special", "extra_flag_value", "relative_paths"]
 
@@ -117,8 +117,9 @@ def strategy(cfg):
                         return x.replace(a, b)
                 return x + "_2"
             second = {"output": twist(outp), "extra": [twist(e) if i == len(extra) - 1 else e for i, e in enumerate(extra)]}
+        twice = second is None and plan in ("ok", "real") and kind in ("dir", "file") and draw(st.integers(0, 3)) == 0
         return {"mode": mode, "driver": driver, "files": files, "input": inp, "input_kind": kind, "output": outp,
-                "extra": extra, "cwd": cwd, "plan": plan, "second": second}
+                "extra": extra, "cwd": cwd, "plan": plan, "second": second, "twice": twice}
     return world()
 
 
@@ -238,6 +239,24 @@ def evaluate(spec, ctx):
             p = subprocess.run(cmd, cwd=cwd, env=child_env(base, {"STUB_REC": rec, "STUB_PLAN": plan}),
                                capture_output=True, text=True, timeout=120)
             ctx.runs += 1
+            if spec.get("twice") and p.returncode == 0:
+                # the configure step runs again later in the same build / working directory; the output directory is gone
+                import shutil
+                out_abs_ = outp if os.path.isabs(outp) else os.path.normpath(os.path.join(cwd, outp))
+                shutil.rmtree(out_abs_, ignore_errors=True)
+                n1 = len(parse_record(rec))
+                p = subprocess.run(cmd, cwd=cwd, env=child_env(base, {"STUB_REC": rec, "STUB_PLAN": plan}),
+                                   capture_output=True, text=True, timeout=120)
+                ctx.runs += 1
+                ctx.probes["same_call_in_a_second_process"] += 1
+                n2 = len(parse_record(rec))
+                if n2 != n1 + 1:
+                    viols.append(viol("second-run-skipped", f"second CMake process over the same build directory, output "
+                                      f"directory absent: the peer was started {n2 - n1} times"))
+                with open(rec, "rb") as f_:
+                    data_ = f_.read().split(b"\x01")
+                with open(rec, "wb") as f_:
+                    f_.write(b"\x01".join(data_[:1] + [b""]))
             calls = parse_record(rec)
             sentinel = os.path.exists(os.path.join(base, "sentinel.txt"))
             peer_fails = plan not in ("ok", "stderr")
@@ -278,6 +297,12 @@ def evaluate(spec, ctx):
             ctx.runs += 1
             sentinel = os.path.exists(os.path.join(base, "sentinel.txt"))
             out_abs = outp if os.path.isabs(outp) else os.path.normpath(os.path.join(cwd, outp))
+            if spec.get("twice") and p.returncode == 0:
+                import shutil
+                shutil.rmtree(out_abs, ignore_errors=True)
+                p = subprocess.run(cmd, cwd=cwd, env=env, capture_output=True, text=True, timeout=300)
+                ctx.runs += 1
+                ctx.probes["same_call_in_a_second_process"] += 1
             via_cmake = core.read_tree(base, os.path.relpath(out_abs, base))
             import shutil
             shutil.rmtree(out_abs, ignore_errors=True)
